@@ -47,6 +47,9 @@ def level_factory(seed, idx, lvl, keys):
             twins = [1, 1.0, True, 0.0, -0.0]
             for n_, k in enumerate(keys):
                 d[k] = twins[(n_ + (lvl if isinstance(lvl, int) else 0)) % len(twins)]
+        if idx % 4 == 1 and keys:  # small containers that plain JSON would not give back as they are
+            d[keys[0]] = {1: "a", 2: [1, 2], (3, 4): None} if (isinstance(lvl, int) and lvl % 2) else {1: "a", 2: [1, 2]}
+            d[keys[-1]] = [1, (2, 3), {"k": (4,)}] if len(keys) > 1 else d[keys[0]]
         rn = core.rng_for(seed, ID, idx, "nested", lvl)
         for k in keys:  # now and then a value is a partition itself (built afresh on every call, like any value here)
             if rn.random() < 0.12:
